@@ -158,7 +158,7 @@ def check(pid, P, tier, seed):
             # the verifier could not be run on the current text: fall back to a bounded search for a
             # concrete input on which the real code violates one of the unit's contracts
             for ob in want:
-                if ob in P.get("cex", {}):
+                if ob in P.get("cex", {}) or P.get("cex_all"):
                     fallback.append(ob)
             continue
         rule_log += ["%s/%s" % (u, l) for l in r.log]
@@ -245,7 +245,7 @@ def check(pid, P, tier, seed):
         out_lines.append("VIOLATION property=%s replay=%s%s" % (pid, rp, "" if cex and cex.get("case") is not None else " no-failing-input-found"))
     done_oracles = set(b["name"] for b in bounded)
     for ob in fallback:
-        oracle = P["cex"][ob]
+        oracle = P.get("cex", {}).get(ob) or P.get("cex_all")
         if oracle in done_oracles:
             continue
         done_oracles.add(oracle)
